@@ -11,7 +11,13 @@ except Exception as e:
 es = json.load(open("/root/.vp/EVIDENCE.schema.json"))
 for p in sorted(glob.glob(os.path.join(HERE, "evidence", "*.json"))):
     try:
-        jsonschema.validate(json.load(open(p)), es)
+        ev = json.load(open(p))
+        jsonschema.validate(ev, es)
+        cov = ev["coverage"]
+        if ev["level"] == "proof" and cov.get("discharged") != cov.get("obligations"):
+            raise ValueError(f"proof level: coverage.discharged ({cov.get('discharged')}) != obligations ({cov.get('obligations')})")
+        if ev["property_id"] != os.path.basename(p)[:-5]:
+            raise ValueError("property_id does not match the file name")
     except Exception as e:
         ok = False; print("INVALID", p, str(e)[:300])
 print("evidence files checked:", len(glob.glob(os.path.join(HERE, "evidence", "*.json"))))
